@@ -57,14 +57,44 @@ class Contract:
             e.assumptions_used.add(f"callee-by-contract: {c.qualname}")
             if c.requires is not None:
                 for nm, cond in c.requires(*args, **kwargs):
+                    if isinstance(cond, Assumed):
+                        e.assumptions_used.add(f"assumed at call sites of {c.qualname}: {nm}")
+                        continue
+                    if isinstance(cond, ForAll):
+                        cond.prove(e, f"call-site requires of {c.qualname}: {nm}")
+                        continue
                     e.prove(f"call-site requires of {c.qualname}: {nm}", cond, kind="requires")
             for exc, cond in c.raises:
                 if bool(mk_bool(cond(*args, **kwargs))):
                     raise exc(f"[stub of {c.qualname}] documented rejection")
-            return c.spec(*args, **kwargs)
+            r = c.spec(*args, **kwargs)
+            return r.build() if isinstance(r, ObjSpec) else r
         stub.__name__ = f"stub_{self.attr}"
         stub.__contract__ = self
         return stub
+
+
+class Assumed:
+    """a requires clause that callers are not asked to prove (reported as an assumption), e.g. `no mode lies exactly
+    on the contour circle`"""
+
+    def __init__(self, cond=None):
+        self.cond = cond
+
+
+class ForAll:
+    """requires clause `forall idx in shape. pred(idx)`; proved at a fresh symbolic index at call sites"""
+
+    def __init__(self, shape, pred):
+        self.shape, self.pred = shape, pred
+
+    def prove(self, e, name):
+        idx, hyps = fresh_index(e, self.shape)
+        e.hyps.extend(hyps)
+        try:
+            e.prove(name, self.pred(idx), kind="requires")
+        finally:
+            del e.hyps[len(e.hyps) - len(hyps):]
 
 
 def resolve(qualname):
@@ -172,7 +202,13 @@ class ObjSpec:
         self.cls, self.fields, self.check_type = cls, fields, check_type
 
     def build(self):
-        return make_instance(self.cls, {k: (v.build() if isinstance(v, ObjSpec) else v) for k, v in self.fields.items()})
+        def b(v):
+            if isinstance(v, ObjSpec):
+                return v.build()
+            if isinstance(v, Opaque):
+                return v.obj
+            return v
+        return make_instance(self.cls, {k: b(v) for k, v in self.fields.items()})
 
 
 _idx_counter = [0]
@@ -312,17 +348,24 @@ def verify_contract(c: Contract, *, only_case=None):
 
         def harness(e, case=case):
             built = case.build(e)
-            args, kwargs = built if isinstance(built, tuple) and len(built) == 2 and isinstance(built[1], dict) else (built, {})
+            ctx = {}
+            if isinstance(built, tuple) and len(built) == 3 and isinstance(built[1], dict) and isinstance(built[2], dict):
+                args, kwargs, ctx = built
+            else:
+                args, kwargs = built if isinstance(built, tuple) and len(built) == 2 and isinstance(built[1], dict) else (built, {})
             fn = c.orig
             bargs, bkw = c.bind(args, kwargs)
             if c.requires is not None:
                 for nm, cond in c.requires(*bargs, **bkw):
+                    if isinstance(cond, (Assumed, ForAll)):
+                        continue  # quantified clauses are built into the harness arrays (sym.array(constraint=...))
                     e.assume(cond if not isinstance(cond, SBool) else cond.t)
             if e.path_id == 0:
                 e.satisfiable("requires satisfiable (vacuity guard)")
             exc = None
             res = None
-            with shimmed(), stubbed(except_for={c.qualname} | c.inline):
+            from . import ops as _ops
+            with shimmed(), stubbed(except_for={c.qualname} | c.inline), _ops.scan_rules(*ctx.get("scan_rules", [])):
                 try:
                     res = fn(*args, **kwargs)
                 except engine.PathAbort:
